@@ -127,9 +127,23 @@ def handleObs (line : String) (toks : List String) : M Unit := do
       expectEq "verify" exp got
       -- soundness oracle (C03): an accepted proof of non-zero hashes states only true facts
       if got.startsWith "ok" && hs.all (· != H256.zero) && hs.length == ts.length then
-        for (t, hh) in ts.zip hs do
-          if I.nodeAtEnc t.toNat != some hh then
-            oracleFail "sound" s!"accepted claim {hx hh} at position {t.toNat} is false (impl {impl})"
+        let bad := (ts.zip hs).filter (fun (t, hh) => I.nodeAtEnc t.toNat != some hh)
+        if !bad.isEmpty then
+          -- Known finding C03.mapverify.totalrows: MapPollard.Verify also accepts targets
+          -- written in TotalRows coordinates (it translates them to TreeRows coordinates
+          -- first); such a target is a non-existent position in the API's coordinates.
+          let treeRows := TreeRows (BitVec.ofNat 64 I.n)
+          let isKnown := match tr with
+            | some total =>
+              total ≠ treeRows.toNat &&
+              bad.all (fun (t, hh) =>
+                t.toNat ≥ 2 ^ (treeRows.toNat + 1) - 1 &&
+                I.nodeAtEnc (translatePos t (BitVec.ofNat 8 total) treeRows).toNat == some hh)
+            | none => false
+          if isKnown then
+            knownFinding "C03.mapverify.totalrows" s!"{impl} accepted {hx bad.head!.2} at position {bad.head!.1.toNat} (TotalRows coordinates)"
+          else
+            oracleFail "sound" s!"accepted claim {hx bad.head!.2} at position {bad.head!.1.toNat} is false (impl {impl})"
     | _, _, _ => parseError line
   | impl :: what :: _ =>
     if what == "modifyfail" || what == "undofail" then mismatch what "ok" (impl ++ " " ++ what)
